@@ -1,7 +1,7 @@
 #!/usr/bin/env python3
 """Core of the libcds verification checks: running drivers in parallel, validating recorded histories with TLC,
 running TLC model checks, known findings, evidence files.  See /verif/DESIGN.md sections 5 and 9."""
-import json, os, re, subprocess, sys, time, shutil, hashlib, concurrent.futures, random
+import itertools, json, os, re, subprocess, sys, time, shutil, hashlib, concurrent.futures, random
 
 sys.path.insert(0, os.path.dirname(os.path.abspath(__file__)))
 import build
@@ -224,18 +224,28 @@ def validate_histories(ctx, jobs, lin_module, cfg_consts, group=None, prop=None,
     if not hist:
         return []
     ctx.distinct += len(hist)
-    # deadlocks: completion is part of the statement only for C03/C04/C05; elsewhere a deadlock is an anomaly, not a violation of
-    # the (safety) property, and the incomplete history is not judged
+    # deadlocks: completion is part of the statement only for C03/C04/C05; elsewhere a deadlock / livelock is an anomaly, not a violation of
+    # the (safety) property.  The partial history recorded up to that point is still judged: it is a violation iff NO completion of its
+    # pending calls (each dropped, or given any result) is accepted (partial[gid] = candidate gids)
+    partial = {}
     if (prop or ctx.prop) not in DEADLOCK_IS_VIOLATION:
         keep = []
         for rec in hist:
             if any('"op":"deadlock"' in l or '"op":"hang"' in l for l in rec[2]):
                 ctx.anomalies.setdefault("deadlock", []).append({"variant": rec[0].variant, "program": rec[0].program, "schedule": rec[3]})
+                cands = _completions(rec[2]) if len(rec[2]) > 1 else None
+                if cands:
+                    ids = []
+                    for ci, body in enumerate(cands):
+                        cg = 2000000000 - (len(partial) * 4000 + ci)
+                        ids.append(cg); keep.append((rec[0], cg, body, rec[3]))
+                    partial[rec[1]] = (rec, ids)
             else:
                 keep.append(rec)
-        if len(keep) != len(hist):
+        ndead = sum(1 for rec in hist if any('"op":"deadlock"' in l or '"op":"hang"' in l for l in rec[2]))
+        if ndead:
             seenv = sorted(set(a["variant"] for a in ctx.anomalies["deadlock"]))
-            log("  ANOMALY (not a violation of %s): %d deadlocked / non-terminating executions in variants %s" % (prop or ctx.prop, len(hist) - len(keep), ",".join(seenv)))
+            log("  ANOMALY (not a violation of %s): %d deadlocked / non-terminating executions in variants %s" % (prop or ctx.prop, ndead, ",".join(seenv)))
         hist = keep
         if not hist:
             return []
@@ -247,6 +257,7 @@ def validate_histories(ctx, jobs, lin_module, cfg_consts, group=None, prop=None,
             key = rec[0].variant + "\n" + key      # crashes / hangs are reported per variant
         uniq.setdefault(key, rec)
     hl = list(uniq.values())
+    cand_ids = set(c for (_, ids) in partial.values() for c in ids)
     cfg = "SPECIFICATION Spec\nCONSTANTS\n" + "".join("  %s\n" % c for c in cfg_consts) + "  MaxThread = %d\nCHECK_DEADLOCK FALSE\n" % max_thread
     rejected = []
     mp = os.path.join(SPEC, "lin", lin_module + ".tla")
@@ -261,7 +272,7 @@ def validate_histories(ctx, jobs, lin_module, cfg_consts, group=None, prop=None,
         tf = os.path.join(ctx.dir, "hist_%s_%d.ndjson" % (nm, si))
         with open(tf, "w") as f:
             for (_, gid, body, _) in part:
-                f.write('{"e":"reset","n":%d,"id":%d}\n' % (len(body), gid))
+                f.write('{"e":"reset","n":%d,"id":%d%s}\n' % (len(body), gid, ',"p":1' if gid in cand_ids else ""))
                 f.write("\n".join(body) + "\n")
         return run_tlc(ctx, mp, cfg_text=cfg, env={"TRACE": tf}, name="lin_%s_%d" % (nm, si), timeout=1500, workers=2 if nsh > 4 else 4, heap="3g")
 
@@ -269,15 +280,28 @@ def validate_histories(ctx, jobs, lin_module, cfg_consts, group=None, prop=None,
         results = list(ex.map(one, list(enumerate(shards))))
     rej = []
     nstates = 0
+    acc_all = set()
+    shard_failed = False
     for part, r in zip(shards, results):
         if r["error"] or r["violation"]:
             ctx.machinery_errors.append("history validation %s failed: %s" % (nm, r["error"] or r["violation"]))
             log(r["out"][-3000:])
+            shard_failed = True
             continue
         acc = set(int(x) for x in re.findall(r'<<"ACC", (\d+)>>', r["out"]))
         ctx.validated += len(part)
         nstates += r["distinct"]
-        rej += [rec for rec in part if rec[1] not in acc]
+        rej += [rec for rec in part if rec[1] not in acc and rec[1] not in cand_ids]
+        acc_all |= acc
+    if partial and not shard_failed:
+        # a partial history none of whose completions is accepted (identical candidate bodies were merged by the de-duplication above: look them up by body)
+        body_acc = set("\n".join(rec[2]) for rec in hl if rec[1] in acc_all)
+        by_id = dict((rec[1], rec) for rec in keep)
+        npart_rej = 0
+        for gid0, (rec0, ids) in partial.items():
+            if not any("\n".join(by_id[c][2]) in body_acc for c in ids):
+                rej.append(rec0); npart_rej += 1
+        log("  %d abandoned executions (deadlock / livelock) judged by the completions of their partial histories: %d have no acceptable completion" % (len(partial), npart_rej))
     log("  validated %d distinct histories against %s (%s): %d rejected; %d states, %d TLC shards, %.1fs" % (len(hl), lin_module, group or "-", len(rej), nstates, nsh, time.time() - t0))
     if len(ctx.samples) < 3 and hl:
         ctx.samples.append({"kind": "history accepted by " + lin_module, "variant": hl[0][0].variant, "program": hl[0][0].program, "events": [json.loads(x) for x in hl[0][2][:40]]})
@@ -312,6 +336,52 @@ def validate_histories(ctx, jobs, lin_module, cfg_consts, group=None, prop=None,
     for rec in rejected:
         report_rejection(ctx, rec, lin_module, cfg_consts, prop or ctx.prop)
     return rejected
+
+
+SIMPLE_OPS = {"enq", "deq", "deqq", "push", "pop", "pushf", "pushb", "popf", "popb", "get", "getq", "put", "ins", "insf", "emp", "upd0", "upd1", "era", "eraf", "ext", "unl",
+              "find", "findf", "extmin", "extmax", "size", "empty", "clear", "lock", "unlock", "trylock", "with", "nest", "front", "popfront", "pushv", "popv", "eraseat"}
+
+
+def _completions(body, cap=1200):
+    """all completions of a partial history: every pending call is dropped or completed (response appended at the end) with any result
+    r in 0..3 and any value that occurs in the history.  None: not judged (a pending call with a compound result, or too many candidates)"""
+    evs = [json.loads(x) for x in body]
+    evs = [e for e in evs if not (e["e"] == "x" and e.get("op") in ("hang", "deadlock"))]
+    last = {}
+    for i, e in enumerate(evs):
+        if e["e"] == "inv":
+            last[e["t"]] = i
+        elif e["e"] == "ret":
+            last.pop(e["t"], None)
+    pend = sorted(last.values())
+    vals = sorted(set([0, 1, 2, 3]) | set(e.get(k, 0) for e in evs if e["e"] in ("inv", "ret") for k in ("a", "b", "v")))
+    opts = []
+    total = 1
+    for i in pend:
+        e = evs[i]
+        if e["op"] not in SIMPLE_OPS:
+            return None
+        if e["op"] in ("size", "empty", "find", "front"):
+            o = [None]                       # read-only: dropping the call is always a legal completion
+        else:
+            rs = (0, 1, 2, 3) if e["op"].startswith("upd") else (0, 1)
+            o = [None] + [(r, v) for r in rs for v in (vals if r else [0])]
+        opts.append(o); total *= len(o)
+        if total > cap:
+            return None
+    res = []
+    for combo in itertools.product(*opts):
+        new = []; tail = []
+        ch = dict(zip(pend, combo))
+        for i, e in enumerate(evs):
+            if i in ch:
+                if ch[i] is None:
+                    continue
+                e = dict(e); e["r"], e["v"] = ch[i]
+                tail.append({"e": "ret", "t": e["t"], "r": e["r"], "v": e["v"]})
+            new.append(e)
+        res.append([json.dumps(x, separators=(",", ":")) for x in new + tail])
+    return res
 
 
 def classify(body):
